@@ -201,6 +201,9 @@ structure Env where
   cwdFile : S → S
   pathJoin : S → S → S
   pkgPath : S
+  /-- the functions named by `extend`, `map … | FUNC` and `default FUNC` exist and load (their signatures are the business
+      of Gv.Signature); with `false` such a line is outside this model -/
+  loaderOk : Bool := false
 
 /-- `config.parseConverterLine` -/
 def parseConverterLine (env : Env) (c : ConvCfg) (value : S) : Except SErr ConvCfg :=
@@ -237,7 +240,7 @@ def parseConverterLine (env : Env) (c : ConvCfg) (value : S) : Except SErr ConvC
     if env.rx p && env.rx n then
       pure { c with common := { c.common with enumExcludes := c.common.enumExcludes ++ [(p, n)] } }
     else .error .regexInvalid
-  | some .extend => .error .needsLoader
+  | some .extend => if env.loaderOk then .ok c else .error .needsLoader
   | none => do
     let (_, cm) ← parseCommon env.rx c.common cmd rest
     pure { c with common := cm }
@@ -320,7 +323,7 @@ def parseMethodLine (env : Env) (m : MethodCfg) (value : S) : Except SErr Method
   match lookupKey methodKeyTable cmd with
   | some .map => do
     let (s, t, custom) ← parseMethodMap rest
-    if !custom.isEmpty then .error .needsLoader
+    if !custom.isEmpty && !env.loaderOk then .error .needsLoader
     else pure (track true { m with fields := updField m.fields t (fun f => { f with source := s }) })
   | some .ignore =>
     .ok (track true { m with fields := (fields rest).foldl (fun fs f => updField fs f (fun x => { x with ignore := true })) m.fields })
@@ -343,7 +346,7 @@ def parseMethodLine (env : Env) (m : MethodCfg) (value : S) : Except SErr Method
   | some .autoMap => do
     let s ← parseString rest
     pure (track true { m with autoMap := m.autoMap ++ [trimSpace s] })
-  | some .default => .error .needsLoader
+  | some .default => if env.loaderOk then .ok m else .error .needsLoader
   | none => do
     let (fs, cm) ← parseCommon env.rx m.common cmd rest
     pure (track fs { m with common := cm })
